@@ -320,43 +320,7 @@ def run(ck):
             ck.decide((f,) in top, "FIELD/reset-stream", "InflateStream." + f, "written on every path",
                       "stream field not reset on every path of inflate reset", where(rk))
 
-    # ---------------- (3) deflate::copy identity -------------------------------------------------
-    cp = P.fn(Z + "deflate::copy")
-    if ck.anchor("fn deflate::copy", cp):
-        ck.use_fn(cp)
-        aggs = []
-        for bi, si, lhs, rv, s in cp.assignments():
-            if rv["k"] == "agg" and rv.get("adt") == Z + "deflate::State":
-                aggs.append((bi, rv, s))
-        if ck.anchor("State aggregate in deflate::copy", len(aggs) == 1, where(cp)):
-            bi, rv, s = aggs[0]
-            e = cp.rvalue_expr(rv)
-            fields = dict(e[3])
-            adt = P.adt(Z + "deflate::State")
-            all_fields = [f["name"] for f in adt["variants"][0]["fields"]]
-            n_same = 0
-            for name in all_fields:
-                inst = "deflate::State." + name
-                fe = fields.get(name)
-                if fe is None:
-                    ck.bad("FIELD/copy-identity", inst, "field missing from the aggregate", where(cp, s.get("line")))
-                    continue
-                src = _source_field(fe)
-                if src is not None and src[-1] == name and "state" in src[:-1]:
-                    n_same += 1
-                    ck.ok("FIELD/copy-identity", inst, "source_state." + name)
-                elif name in COPY_REPOINTED:
-                    ck.ok("FIELD/copy-identity", inst, "re-pointed: " + COPY_REPOINTED[name])
-                elif name in COPY_MARKERS:
-                    ck.ok("FIELD/copy-identity", inst, "zero-sized marker")
-                else:
-                    ck.bad("FIELD/copy-identity", inst,
-                           "copy initialises this field from `%s`, not from the same field of the source — the copy "
-                           "diverges from the original in histories that read it" % mir.fmt(fe, cp),
-                           where(cp, s.get("line")))
-            ck.floor("FIELD/copy-identity:same", n_same, 30)
-            ck.sample("deflate::copy aggregate: %d fields, %d identical to source" % (len(all_fields), n_same))
-            _check_copy_repointed(ck, P, cp, fields)
+    copy_identity(ck, P)
 
     # ---------------- (4) inflate::copy pointer patch --------------------------------------------
     icp = P.fn(Z + "inflate::copy")
@@ -471,6 +435,48 @@ def run(ck):
     ck.floor("SIB/ref-writes", refwrites.check(ck, P, "SIB/ref-writes", only={"deflate.c:deflateResetKeep", "inflate.c:inflateResetKeep",
              "inflate.c:inflateReset2", "deflate.c:lm_init", "deflate.c:lm_set_level"}), 30)
     ck.call_sites += sum(len(f.calls) for f in (P.fn(p) for p in list(ck.fns_analysed)) if f)
+
+
+def copy_identity(ck, P):
+    """deflate::copy builds the new State field by field: every field is the same field of the source (or a listed
+    re-pointed buffer / marker)"""
+    # ---------------- (3) deflate::copy identity -------------------------------------------------
+    cp = P.fn(Z + "deflate::copy")
+    if ck.anchor("fn deflate::copy", cp):
+        ck.use_fn(cp)
+        aggs = []
+        for bi, si, lhs, rv, s in cp.assignments():
+            if rv["k"] == "agg" and rv.get("adt") == Z + "deflate::State":
+                aggs.append((bi, rv, s))
+        if ck.anchor("State aggregate in deflate::copy", len(aggs) == 1, where(cp)):
+            bi, rv, s = aggs[0]
+            e = cp.rvalue_expr(rv)
+            fields = dict(e[3])
+            adt = P.adt(Z + "deflate::State")
+            all_fields = [f["name"] for f in adt["variants"][0]["fields"]]
+            n_same = 0
+            for name in all_fields:
+                inst = "deflate::State." + name
+                fe = fields.get(name)
+                if fe is None:
+                    ck.bad("FIELD/copy-identity", inst, "field missing from the aggregate", where(cp, s.get("line")))
+                    continue
+                src = _source_field(fe)
+                if src is not None and src[-1] == name and "state" in src[:-1]:
+                    n_same += 1
+                    ck.ok("FIELD/copy-identity", inst, "source_state." + name)
+                elif name in COPY_REPOINTED:
+                    ck.ok("FIELD/copy-identity", inst, "re-pointed: " + COPY_REPOINTED[name])
+                elif name in COPY_MARKERS:
+                    ck.ok("FIELD/copy-identity", inst, "zero-sized marker")
+                else:
+                    ck.bad("FIELD/copy-identity", inst,
+                           "copy initialises this field from `%s`, not from the same field of the source — the copy "
+                           "diverges from the original in histories that read it" % mir.fmt(fe, cp),
+                           where(cp, s.get("line")))
+            ck.floor("FIELD/copy-identity:same", n_same, 30)
+            ck.sample("deflate::copy aggregate: %d fields, %d identical to source" % (len(all_fields), n_same))
+            _check_copy_repointed(ck, P, cp, fields)
 
 
 def _source_field(e):
